@@ -20,7 +20,7 @@ Lemma step_quiet (l : nat) (T : thr) (ot : otrk) (o : dop) (r : res) (c : co) :
   Inv l T ot ->
   (forall x, o <> SetClock x) ->
   nth_error (t_cos T) (op_idx o) = Some c ->
-  flags (opost_f o r [] (clear_op (get_k ot (op_idx o))) true
+  flags (opost_f o r [] (clear_op (get_k ot (op_idx o))) (t_clock T) true
            {| f_clock := t_clock T; f_k := clear_op (get_k ot (op_idx o));
               f_07 := true; f_08 := true; f_09 := true |}) ->
   Inv l T (ostep1 l ot o r []).
